@@ -16,5 +16,6 @@ func moreGens() []struct {
 		{"DeclHash.v", genDeclHash},   // C13, C15
 		{"NodeReset.v", genNodeReset}, // C12
 		{"NodeOps.v", genNodeOps},     // C12
+		{"C08Facts.v", genC08Facts},   // C08
 	}
 }
